@@ -41,6 +41,9 @@ fn kill_and_reap_child_proc_group(unreaped_pgid: Option<Pid>) -> Result<(), Erro
             Err(_) => Err(Error::FailedToKillChildProcessGroup(pgid)),
             Ok(()) => match wait::waitpid(pgid, None) {
                 Ok(_) => Ok(()),
+                // already reaped by the task that collects the child's output: it waits for the
+                // child too once both pipes are closed
+                Err(Errno::ECHILD) => Ok(()),
                 Err(_) => Err(Error::FailedToReapChildProcessGroup(pgid)),
             },
         }
